@@ -29,12 +29,12 @@ pub const D_NEXTDAY: usize = 12;
 pub const DIMS: [(&str, u8); NDIM] = [
     ("types", 5),     // 0 A | 1 A limit 1 | 2 A limit 2 | 3 A + B | 4 A + unused type C
     ("segLimit", 4),  // 0 none | 1 limit 1 on all route segments | 2 limit 2 on all | 3 limit 1 on direction-0 routes only
-    ("shunting", 4),  // (minimal, deadHead): 0 (0,0) | 1 (300,0) | 2 (0,300) | 3 (600,600)
+    ("shunting", 5),  // (minimal, deadHead): 0 (0,0) | 1 (300,0) | 2 (0,300) | 3 (600,600) | 4 (900,0): staying put needs longer than a quick dead-head
     ("forbid", 2),    // forbidDeadHeadTrips: 0 absent | 1 true
     ("depots", 9),    // 0 absent | 1 [] | 2 one depot cap 1 | 3 one depot cap 2 | 4 two depots cap 1 each | 5 total 5, per-type 1 | 6 type not listed | 7 two depots cap 5 | 8 two depots at the SAME location, cap 1 each
     ("maint", 6),     // 0 absent | 1 slot x1 track | 2 slot x2 tracks | 3 two slots | 4 slot overlapping/tying the trips | 5 slot but parameters.maintenance absent
-    ("maxDist", 2),   // 0 large | 1 binding
-    ("deadHeads", 4), // 0 symmetric | 1 asymmetric | 2 slower than a service trip | 3 three locations, non-metric
+    ("maxDist", 3),   // 0 large (1000 km) | 1 binding (60 km) | 2 beyond the stand-in distance of the overflow depot (30 000 km, the value of the repository's sample input)
+    ("deadHeads", 5), // 0 symmetric | 1 asymmetric | 2 slower than a service trip | 3 three locations, non-metric | 4 very quick (60 s)
     ("costs", 5),     // 0 default | 1 all zero | 2 dead-head cheaper than service | 3 idle dominant | 4 idle three orders of magnitude above everything else
     ("seated", 2),    // 0 capacity binding | 1 seats binding
     ("twoSeg", 2),    // 0 one-segment routes | 1 direction-0 departures run a two-segment route
@@ -59,6 +59,9 @@ pub struct Inst {
 pub const BASE0: Cfg = [0; NDIM];
 /// a slot that overlaps / ties with the trips (local search must displace trips to use it), binding maximal distance
 pub const BASE2: Cfg = [0, 0, 0, 0, 0, 4, 1, 0, 0, 0, 0, 0, 0];
+/// scarce real depot capacity (one depot of capacity 1: overflow depot in use) with a two-track slot and a
+/// maximal distance beyond the overflow depot's stand-in distance: overflow vehicles take part in rotation cycles
+pub const BASE3: Cfg = [0, 0, 0, 0, 2, 2, 2, 0, 0, 0, 0, 0, 0];
 pub const BASE1: Cfg = [0, 0, 0, 0, 0, 2, 1, 0, 0, 0, 0, 0, 0]; // one slot x 2 tracks, binding maximal distance
 
 /// all configurations differing from `base` in at most `k` dimensions, simplest first
@@ -213,7 +216,8 @@ impl Inst {
             0 => (0, 0),
             1 => (300, 0),
             2 => (0, 300),
-            _ => (600, 600),
+            3 => (600, 600),
+            _ => (900, 0),
         };
 
         // routes: one per (type, direction) that is used
@@ -300,6 +304,8 @@ impl Inst {
             (0, true) => (json!([[0, 1800, 2400], [1800, 0, 1200], [2400, 1200, 0]]), json!([[0, 30000, 40000], [30000, 0, 20000], [40000, 20000, 0]])),
             (1, true) => (json!([[0, 1200, 2400], [2400, 0, 1200], [2400, 1200, 0]]), json!([[0, 20000, 40000], [40000, 0, 20000], [40000, 20000, 0]])),
             (2, true) => (json!([[0, 4000, 2400], [4000, 0, 1200], [2400, 1200, 0]]), json!([[0, 70000, 40000], [70000, 0, 20000], [40000, 20000, 0]])),
+            (4, false) => (json!([[0, 60], [60, 0]]), json!([[0, 1000], [1000, 0]])),
+            (4, true) => (json!([[0, 60, 60], [60, 0, 60], [60, 60, 0]]), json!([[0, 1000, 1000], [1000, 0, 1000], [1000, 1000, 0]])),
             // non-metric: L0->L2 direct is far longer than via L1, L2->L0 is very short
             (_, _) => (json!([[0, 1800, 5400], [1800, 0, 1800], [600, 1800, 0]]), json!([[0, 30000, 90000], [30000, 0, 30000], [10000, 30000, 0]])),
         };
@@ -368,7 +374,7 @@ impl Inst {
             params["forbidDeadHeadTrips"] = json!(true);
         }
         if c[D_MAINT] != 0 && c[D_MAINT] != 5 {
-            params["maintenance"] = json!({"maximalDistance": if c[D_MAXDIST] == 1 { 60000 } else { 1000000 }});
+            params["maintenance"] = json!({"maximalDistance": match c[D_MAXDIST] { 1 => 60000, 2 => 30000000, _ => 1000000 }});
         }
 
         let mut inp = json!({
